@@ -95,7 +95,7 @@ def generate(streams, tier):
                 ops.append([who, op, rng.randrange(0, len(data) + 4), rng.random() < 0.5])
             else:
                 ops.append([who, op])
-    return {"data": data, "ops": ops, "buffer": rng.choice(["bytes", "bytes", "bytearray", "memoryview"])}
+    return {"data": data, "ops": ops, "buffer": rng.choice(["bytes", "bytes", "bytearray", "memoryview", "window"])}
 
 
 def _abstract(m):
@@ -110,7 +110,9 @@ def execute(plan, env):
     res = Result()
     tr = Trace(keep=env.keep_trace)
     data = bytes(plan["data"])
-    buf = {"bytes": bytes, "bytearray": bytearray, "memoryview": lambda b: memoryview(bytearray(b))}[plan.get("buffer", "bytes")](data)
+    buf = {"bytes": bytes, "bytearray": bytearray, "memoryview": lambda b: memoryview(bytearray(b)),
+           # a window into a larger buffer whose surroundings hold break bytes
+           "window": lambda b: memoryview(b"\x01\xff\x02" + b + b"\x03\xff\x04\xff")[3:3 + len(b)]}[plan.get("buffer", "bytes")](data)
     res.count("buffer_" + plan.get("buffer", "bytes"))
     pool = [(EoReader(buf), ReaderModel(data), 0)]  # real, model, slice depth
 
